@@ -2,8 +2,8 @@ package host
 
 import (
 	"crypto/sha256"
-	"encoding/hex"
 	"crypto/tls"
+	"encoding/hex"
 	"errors"
 	"fmt"
 	"os"
